@@ -63,7 +63,7 @@ fn parse_out(o: &Outcome) -> Option<&str> {
     }
 }
 
-fn binary(report: &Report) {
+fn binary(report: &Report, thorough: bool) {
     let parser = cfgs::parser(Config::Stdlib);
     let n = INTS.len() as u64;
     let rad = [n, n, 4, 4, BINARY.len() as u64];
@@ -107,7 +107,7 @@ fn binary(report: &Report) {
     // powers of two and their neighbours: every carry / overflow boundary of 64-bit arithmetic
     let mut pw: Vec<i64> = vec![0];
     for k in 0..63u32 {
-        for d in [-1i64, 0, 1] {
+        for d in if thorough { -3i64..=3 } else { -1i64..=1 } {
             let v = (1i64 << k).wrapping_add(d);
             pw.push(v);
             pw.push(v.wrapping_neg());
@@ -132,7 +132,40 @@ fn binary(report: &Report) {
         },
         |i| json!({"index": i}),
     );
-    report.family(FamilyStat { name, cases: total, nontrivial: nontriv.load(Ordering::Relaxed) - nt0, skipped: 0, note: "+-2^k, +-(2^k+-1) for k in 0..62".into() });
+    report.family(FamilyStat { name, cases: total, nontrivial: nontriv.load(Ordering::Relaxed) - nt0, skipped: 0, note: if thorough { "+-(2^k + d) for k in 0..62, |d| <= 3".into() } else { "+-2^k, +-(2^k+-1) for k in 0..62".into() } });
+    if thorough {
+        // the same neighbourhoods (|d| <= 1) with one operand spelled as a numeric string or held as a float
+        let mut pw1: Vec<i64> = vec![0, i64::MAX, i64::MIN, i64::MIN + 1];
+        for k in 0..63u32 {
+            for d in -1i64..=1 {
+                let v = (1i64 << k).wrapping_add(d);
+                pw1.push(v);
+                pw1.push(v.wrapping_neg());
+            }
+        }
+        pw1.sort();
+        pw1.dedup();
+        let m = pw1.len() as u64;
+        let reprs: [(u64, u64); 6] = [(0, 1), (1, 0), (1, 1), (0, 2), (2, 0), (2, 2)];
+        let rad = [m, m, BINARY.len() as u64, reprs.len() as u64];
+        let total = product(&rad);
+        let name = format!("binary/power-of-two neighbourhood grid ({m} integers) x 7 filters x 6 mixed representations");
+        let nt1 = nontriv.load(Ordering::Relaxed);
+        par_range(
+            report,
+            &name,
+            total,
+            |i| {
+                let d = decode(i, &rad);
+                let (ra, rb) = reprs[d[3] as usize];
+                let (va, na) = operand(pw1[d[0] as usize], ra);
+                let (vb, nb) = operand(pw1[d[1] as usize], rb);
+                check_binary(report, &parser, i, BINARY[d[2] as usize], va, na, vb, nb, &nontriv);
+            },
+            |i| json!({"index": i}),
+        );
+        report.family(FamilyStat { name, cases: total, nontrivial: nontriv.load(Ordering::Relaxed) - nt1, skipped: 0, note: "integer x numeric string, string x integer, string x string, integer x float, float x integer, float x float".into() });
+    }
     report.nontrivial.fetch_add(nontriv.load(Ordering::Relaxed), Ordering::Relaxed);
 }
 
@@ -274,7 +307,7 @@ fn round_half_away(x: f64) -> f64 {
     }
 }
 
-fn unary(report: &Report) {
+fn unary(report: &Report, thorough: bool) {
     let parser = cfgs::parser(Config::Stdlib);
     let mut n = 0u64;
     let mut nontriv = 0u64;
@@ -285,6 +318,21 @@ fn unary(report: &Report) {
             inputs.push(f);
             inputs.push(f + 0.5);
             inputs.push(f - 0.5);
+        }
+    }
+    if thorough {
+        // every tie k + 0.5 and both of its neighbouring doubles for |k| <= 2048, and 2^e +- {0, 0.5, one ulp} for every
+        // exponent up to the last one with a fractional part
+        for k in -2048i64..=2048 {
+            let t = k as f64 + 0.5;
+            inputs.extend([t, f64::from_bits(t.to_bits() + 1), f64::from_bits(t.to_bits() - 1)]);
+        }
+        for e in 0..=53i32 {
+            let p = 2f64.powi(e);
+            for x in [p, p + 0.5, p - 0.5, f64::from_bits(p.to_bits() + 1), f64::from_bits(p.to_bits() - 1), p + 1.0, p - 1.0] {
+                inputs.push(x);
+                inputs.push(-x);
+            }
         }
     }
     inputs.extend([1e15 + 0.5, -1e15 - 0.5, 4503599627370495.5, -4503599627370495.5, 0.49999999999999994, -0.49999999999999994, 1e-300, -1e-300]);
@@ -377,9 +425,8 @@ pub fn run(tier: Tier) -> i32 {
     let report = Report::new("C15", tier, "exploration");
     report.set_rule("all ordered pairs of the integer grid (incl. i64 bounds, +-2^62, +-(2^53+1), +-3037000500) in 4x4 operand representations and all pairs of the k/8 grid for the seven binary math filters; all grid inputs for ceil/floor/round(0..3 places)/abs; distinct by construction; non-trivial = the render returned (Ok or Err) and was compared with i128 / IEEE f64 reference arithmetic");
     report.assume("integer division may truncate or floor (both satisfy the stated identity); float modulo may be truncated or floored; a float zero divisor may be an error or the IEEE result");
-    let _ = tier;
-    binary(&report);
-    unary(&report);
+    binary(&report, tier.thorough());
+    unary(&report, tier.thorough());
     report.sample(json!({"family": "binary", "template": "{{ a | plus: b }}", "data": {"a": i64::MAX, "b": 1}, "expected": "Err or 9223372036854775808 as float"}));
     report.finish()
 }
